@@ -223,6 +223,36 @@ impl Diagram {
         (class, idx.len())
     }
 
+    /// number of closed curves of the partially resolved diagram: crossing c is smoothed by
+    /// `partial[c] = Some(bit)` (same convention as `circles`) or left as a crossing (`None`: the
+    /// strands pass straight through, slots 0-2 and 1-3)
+    pub fn curves(&self, partial: &[Option<bool>]) -> usize {
+        let e = self.edge_of_dart();
+        let mut p: Vec<usize> = (0..2 * self.n).collect();
+        for c in 0..self.n {
+            let s = |k: usize| e[4 * c + k];
+            match partial[c] {
+                None => {
+                    uf_union(&mut p, s(0), s(2));
+                    uf_union(&mut p, s(1), s(3));
+                }
+                Some(false) => {
+                    uf_union(&mut p, s(0), s(1));
+                    uf_union(&mut p, s(2), s(3));
+                }
+                Some(true) => {
+                    uf_union(&mut p, s(0), s(3));
+                    uf_union(&mut p, s(1), s(2));
+                }
+            }
+        }
+        let mut roots = std::collections::BTreeSet::new();
+        for x in 0..2 * self.n {
+            roots.insert(uf_find(&mut p, x));
+        }
+        roots.len()
+    }
+
     /// Parses a PD code (slot 0 = incoming under strand, counter-clockwise) into the directed
     /// structure.  Over-strand directions are inferred from the under strands; a component that
     /// never passes under gets the direction that makes its first over slot (in crossing order)
